@@ -126,6 +126,11 @@ pub fn has_misplaced_side_effect(tokens: &[garnish_lang_compiler::lex::LexerToke
         if !is_val(before) && !is_val(after) {
             return true;
         }
+        // a block directly after a suffix operator follows an operation, not a value (recorded finding: the parser makes
+        // the suffix operation the block's own child and nothing is emitted for it), whatever comes after the block
+        if matches!(before.map(|t| token_class(*t)), Some("suffix") | Some("suffix-id")) {
+            return true;
+        }
         // two blocks in a row, or a block directly inside another block
         if matches!(before, Some(TokenType::EndSideEffect) | Some(TokenType::StartSideEffect)) || matches!(after, Some(TokenType::StartSideEffect)) {
             return true;
